@@ -154,13 +154,18 @@ def strategy():
                 s = max(0, src['pos'] - draw(st.integers(0, 15)))
                 e = src['pos'] + cigar_ref_len(src['cigar']) + draw(st.integers(1, 15))
                 blacklist.append([contigs[src['tid']][0], s, e])
+                if src['pos'] - s >= 6 and draw(st.booleans()):
+                    # a short region nested in the head of the one just made (before the read it was built around)
+                    blacklist.append([contigs[src['tid']][0], s + 1, s + 4])
             blacklist = [b for b in blacklist if unambiguous(b, recs, contigs)] or None
         second = None
         if draw(st.integers(0, 3)) == 0:
             # a second alignment file counted in the same call: the same reads under other cell names
             k = draw(st.integers(1, n))
             second = [dict(r, name='s%d' % i, tags=dict(r['tags'], SM='other%d' % (i % 2))) for i, r in enumerate(recs[:k])]
-        return {'contigs': contigs, 'records': recs, 'opts': o, 'bed': bed, 'blacklist': blacklist, 'second': second}
+        # history: the same options object was used for an earlier call with --r1only / --r2only switched on
+        prior = draw(st.sampled_from([None, None, None, None, 'r1only', 'r2only']))
+        return {'contigs': contigs, 'records': recs, 'opts': o, 'bed': bed, 'blacklist': blacklist, 'second': second, 'prior': prior}
     return case()
 
 
@@ -214,6 +219,15 @@ def eval_case(case):
             for k_, v_ in ct.recount(contigs, case['second'], o, bed=case['bed'], blacklist=case['blacklist']).items():
                 exp[k_] = exp.get(k_, 0) + v_
             out.label('two alignment files')
+        if case.get('prior') and not o.get('r1only') and not o.get('r2only'):
+            try:
+                setattr(ns, case['prior'], True)
+                with contextlib.redirect_stdout(io.StringIO()):
+                    create_count_table(ns, return_df=True)
+            except Exception:
+                pass
+            setattr(ns, case['prior'], False)       # the caller switches the mate selection off again and counts once more
+            out.label('options object reused')
         try:
             with contextlib.redirect_stdout(io.StringIO()):
                 df = create_count_table(ns, return_df=True)
